@@ -305,7 +305,8 @@ class Ctx:
         consts = m.get("consts")
         rej, _ = self.validate_trace(m["module"], out, consts, shards=1, name="Redo_" + m["family"])
         self.cov["traces_validated_against_impl"] -= 1
-        return any(m["prop"] in r[1].split("+") for r in rej)
+        self.last_redo = [r for r in rej if m["prop"] in r[1].split("+")]
+        return bool(self.last_redo)
 
     def replay_cases(self, family, cases_path, timeout=3600, **extra):
         """Spec -> impl: execute TLC-emitted cases on the real code; mismatches are
@@ -338,6 +339,13 @@ class Ctx:
             m = json.load(f)
         self.build()
         ok = self.confirm_tv(m) if m.get("dir") == "tv" else self.confirm_replay(m)
+        if ok and m.get("dir") == "tv":
+            # judged as it would be today: a recorded finding is not a violation
+            fresh = dict(m, expected=self.last_redo[0][2])
+            k = match_known(load_known_findings(), m.get("prop", self.prop), fresh)
+            if k is not None:
+                print("KNOWN-FINDING: property=%s %s" % (self.prop, k["what"]))
+                return 0
         if ok:
             print("VIOLATION property=%s replay=%s" % (m.get("prop", self.prop), path))
             print("  detail: " + json.dumps({k: v for k, v in m.items() if k != "case"})[:600])
